@@ -4,6 +4,8 @@ Model-based stateful run: a seeded sequence of index operations (on root series 
 views) is applied to real BlockSeries objects and to a dense numpy array of element ids;
 after every operation the result, the eval call log and the memo are checked.
 """
+import json
+
 import numpy as np
 
 from simkit import batch
@@ -32,11 +34,11 @@ def _item_to_py(item):
     for c in item:
         if isinstance(c, dict):
             if "l" in c:
-                out.append(list(c["l"]))
+                out.append(json.loads(json.dumps(c["l"])))  # the caller's own (possibly nested) lists, never the case's
             elif "npi" in c:
-                out.append(np.int64(c["npi"]))
+                out.append(np.dtype(c.get("dt", "int64")).type(c["npi"]))  # numpy integers of any width are integers
             elif "na" in c:
-                out.append(np.array(c["na"]))  # an index list handed over as a numpy integer array
+                out.append(np.array(c["na"], dtype=c.get("dt")))  # an index list handed over as a numpy integer array
             elif "np0" in c:
                 out.append(np.array(c["np0"]))  # a 0-d integer array: an integer for numpy's indexing
             else:
@@ -61,14 +63,16 @@ class Prop:
             "event log (operations, outcomes, eval calls)")
     probes = ["op_scalar", "op_array", "op_view_create", "op_on_view", "op_on_packed_view", "expect_indexerror_order",
               "expect_indexerror_finite", "expect_runtimeerror_cycle", "masked_result", "precached_read",
-              "dep_nested_eval", "dep_slice_eval", "dep_view_eval", "nested_list_index", "none_valued_read", "kept_view_created", "op_on_kept_view", "npint_index", "cycle_len1", "cycle_len2", "cycle_len3", "view_of_view", "wrong_length", "bare_index", "index_array_mutated_after_view", "index_list_mutated_after_view", "deepcopy_checked", "zero_dim_array_index", "subclassed_roots", "oob_scalar_view", "op_on_oob_view", "eval_formats_series", "pop_cached", "pop_absent", "contains_true", "contains_false"]
+              "dep_nested_eval", "dep_slice_eval", "dep_view_eval", "nested_list_index", "none_valued_read", "kept_view_created", "op_on_kept_view", "npint_index", "cycle_len1", "cycle_len2", "cycle_len3", "view_of_view", "wrong_length", "bare_index", "index_array_mutated_after_view", "index_list_mutated_after_view", "nested_index_list_mutated_after_view", "narrow_int_at_type_max", "wide_world", "deepcopy_checked", "zero_dim_array_index", "subclassed_roots", "oob_scalar_view", "op_on_oob_view", "eval_formats_series", "pop_cached", "pop_absent", "contains_true", "contains_false"]
     components_real = ["pymablock.series.BlockSeries (__getitem__, views, pop, __contains__, _check_finite, _check_number_perturbations)"]
     components_stub = ["element eval callbacks (simulator-owned table with dependency edges)", "series names (token_hex counter)"]
-    assumptions = ["orders < 5, at most 4 finite and 2 infinite dimensions (5 in total), sizes 1-3",
+    assumptions = ["orders < 5 (5% of the worlds: one series with orders < 256 requested through numpy integers of every width up to the maximum of their type), at most 4 finite and 2 infinite dimensions (5 in total), sizes 1-3",
                    "requests touching an ill-founded element only through a packed view's sibling cells may either raise RuntimeError or return the model value"]
 
     # ------------------------------------------------------------------ generation
     def generate(self, r, tier, idx):
+        if r.random() < 0.05:
+            return self._gen_wide(r)
         nroots = r.choice([1, 1, 2, 3])
         roots = []
         for s in range(nroots):
@@ -158,6 +162,41 @@ class Prop:
         return {"roots": roots, "edges": edges, "ops": ops, "talkative": r.random() < 0.25, "subclassed": r.random() < 0.15}
 
     @staticmethod
+    def _gen_wide(r):
+        """One series with 256 orders: order indices given as narrow numpy integers up to the maximum of their type."""
+        shape = r.choice([[], [2], [2, 2]])
+        root = {"shape": shape, "ninf": 1, "K": 256, "p_absent": r.choice([0.0, 0.3]), "p_none": 0.0, "p_exotic": 0.0,
+                "vseed": r.randrange(1 << 30), "pre": []}
+        edge = {"int8": [127, 127, 126, 100, 5], "uint8": [255, 255, 254, 128, 7], "int16": [255, 200], "uint16": [255, 129],
+                "int32": [255, 130], "int64": [255, 3]}
+
+        def order():
+            dt = r.choice(list(edge))
+            x = r.random()
+            if x < 0.45:
+                return {"npi": r.choice(edge[dt]), "dt": dt}
+            if x < 0.7:
+                return {"na": [r.choice(edge[dt]) for _ in range(r.choice([1, 2, 3]))], "dt": dt}
+            if x < 0.8:
+                return r.choice([127, 128, 255, 200, 0])
+            if x < 0.9:
+                a = r.choice([120, 125, 250])
+                return {"s": [a, a + r.randint(1, 5), None]}
+            return {"l": [r.choice([127, 255, 1]) for _ in range(r.choice([1, 2]))]}
+
+        ops, targets = [], [("r", 0)]
+        for _ in range(r.randint(3, 8)):
+            tgt = r.choice(targets)
+            fin = [] if tgt[0] == "v" else [r.randrange(d) if r.random() < 0.7 else {"s": [None, None, None]} for d in shape]
+            if tgt[0] == "r" and shape and r.random() < 0.3 and len(targets) < 3:
+                item = [r.randrange(d) for d in shape]  # a scalar view first, orders later
+                ops.append(["idx", list(tgt), item, len(ops)])
+                targets.append(("v", len(ops) - 1))
+                continue
+            ops.append(["idx", list(tgt), fin + [order()], len(ops)])
+        return {"roots": [root], "edges": [], "ops": ops, "talkative": False, "subclassed": False, "wide": True}
+
+    @staticmethod
     def _rank(roots, s, idx):
         nfin = len(roots[s]["shape"])
         return (sum(idx[nfin:]), s, tuple(idx))
@@ -191,6 +230,12 @@ class Prop:
             if all(isinstance(c, int) for c in item) and not (fault and r.random() < 0.5):
                 # mostly in bounds; an out-of-bounds scalar view may fail at creation or on every use, never serve elements
                 item = [(c if -d <= c < d else 0) if d else {"s": [None, None, None]} for c, d in zip(item, shape)]
+            elif len(shape) >= 2 and min(shape) >= 1 and not fault and r.random() < 0.12:
+                # a view selected with a column list and a row list (nested lists, what np.ix_ produces)
+                a, b = sorted(r.sample(range(len(shape)), 2))
+                item = [c if isinstance(c, int) else 0 for c in item]
+                item[a] = {"l": [[r.randrange(shape[a])] for _ in range(2)]}
+                item[b] = {"l": [[r.randrange(shape[b]) for _ in range(r.choice([1, 2]))]]}
             return item
         fault_dim = r.randrange(ninf) if (fault and ninf and r.random() < 0.7) else None
         for k in range(ninf):
@@ -281,7 +326,7 @@ class Prop:
         flat = []  # id -> (root, index)
         pre = []
         for s, root in enumerate(roots_spec):
-            full = tuple(root["shape"]) + (K,) * root["ninf"]
+            full = tuple(root["shape"]) + (root.get("K", K),) * root["ninf"]
             n = int(np.prod(full)) if full else 1
             base = len(flat)
             arr = np.arange(base, base + n).reshape(full)
@@ -327,6 +372,8 @@ class Prop:
             s, a, t, b = e[:4]
             if (s, tuple(a)) == (t, tuple(b)) and not (len(e) > 4 and e[4] == "kv"):
                 bump("cycle_len1")
+        if case.get("wide"):
+            bump("wide_world")
         ncyc = len(bad_ids)
         if ncyc:
             bump("worlds_with_cycle")
@@ -456,6 +503,9 @@ class Prop:
             item = _item_to_py(item_spec)
             if any(isinstance(c, np.integer) for c in item):
                 bump("npint_index")
+            if any(isinstance(c, (np.integer, np.ndarray)) and np.size(c) and np.issubdtype(np.asarray(c).dtype, np.integer)
+                   and np.max(c) == np.iinfo(np.asarray(c).dtype).max for c in item):
+                bump("narrow_int_at_type_max")
             if any(isinstance(c, np.ndarray) and c.ndim == 0 for c in item):
                 bump("zero_dim_array_index")
             if any(isinstance(c, list) and c and isinstance(c[0], list) for c in item):
@@ -568,6 +618,10 @@ class Prop:
                                 comp_[...] = 0
                             if isinstance(comp_, list):
                                 bump("index_list_mutated_after_view")
+                                for inner_ in comp_:
+                                    if isinstance(inner_, list):  # the rows of a nested index list are the caller's lists too
+                                        bump("nested_index_list_mutated_after_view")
+                                        inner_[:] = [0] * len(inner_)
                                 comp_.reverse()
                                 comp_.append(0)
                                 if comp_ and isinstance(comp_[0], int):
@@ -678,7 +732,7 @@ class Prop:
     @staticmethod
     def _valid(roots_spec, s, index):
         root = roots_spec[s]
-        full = tuple(root["shape"]) + (K,) * root["ninf"]
+        full = tuple(root["shape"]) + (root.get("K", K),) * root["ninf"]
         return len(index) == len(full) and all(0 <= i < d for i, d in zip(index, full))
 
     @staticmethod
@@ -689,8 +743,8 @@ class Prop:
                     return "infinite"
                 if (o.start is not None and o.start < 0) or o.stop < 0:
                     return "negative"
-            elif isinstance(o, list):
-                if len(o) and np.min(np.asarray(o)) < 0:
+            elif isinstance(o, (list, np.ndarray)):
+                if np.size(o) and np.min(np.asarray(o)) < 0:
                     return "negative"
             elif o < 0:
                 return "negative"
